@@ -7,7 +7,7 @@ from .. import core, values
 
 ID = 'C13'
 LEVEL = 'exploration'
-RULE = ('case = rooted directed graph of container nodes (list, dict, tuple-holding-a-list) with ordered out-edges to '
+RULE = ('case = rooted directed graph of container nodes (list, dict, tuple-holding-a-list, user objects holding a list whose printer is registered for the class or through a predicate) with ordered out-edges to '
         'nodes or int leaves, edges added after creation (so self-loops, 2- and 3-cycles through mixed kinds and diamonds '
         'exist), optionally with comment() on some edges (a commented value is not a node), plus a second root; history = print g, print g, print an unrelated value, print the graph from the second '
         'root, print g, print g with a printer returning a non-document inside every node (the call raises while the '
@@ -21,6 +21,28 @@ ASSUMPTIONS = ['id() of live objects is the identity the marker must name', 'Rec
 BUDGET = {'quick': {'random': 6000, 'shards': 16}, 'thorough': {'random': 300000, 'shards': 16}}
 
 KINDS = ['list', 'dict', 'tuple']
+OBJ_KINDS = ['cobj', 'pobj']       # user objects holding a list: printer registered for the class / through a predicate
+
+
+class CNode:
+    def __init__(self):
+        self.items = []
+
+
+class PNode:
+    def __init__(self):
+        self.items = []
+
+
+_registered = []
+
+
+def _register():
+    if not _registered:
+        from prettyprinter import register_pretty, pretty_call
+        register_pretty(CNode)(lambda v, ctx: pretty_call(ctx, 'CNode', v.items))
+        register_pretty(predicate=lambda v: isinstance(v, PNode))(lambda v, ctx: pretty_call(ctx, 'PNode', v.items))
+        _registered.append(True)
 STEP_CAP = 400000
 MARK = re.compile(r'<Recursion on (\w+) with id=(\d+)>')
 
@@ -29,8 +51,13 @@ def build_graph(case):
     kinds = case['kinds']
     objs = []
     sinks = []   # where children are added
+    _register()
     for k in kinds:
-        if k == 'list':
+        if k in OBJ_KINDS:
+            o = CNode() if k == 'cobj' else PNode()
+            objs.append(o)
+            sinks.append(o.items)
+        elif k == 'list':
             o = []
             objs.append(o)
             sinks.append(o)
@@ -75,6 +102,8 @@ def expected(obj, path, stats):
             return ('tuple', tuple(expected(x, path, stats) for x in obj))
         if isinstance(obj, dict):
             return ('dict', tuple((('str', k), expected(x, path, stats)) for k, x in obj.items()))
+        if isinstance(obj, (CNode, PNode)):
+            return ('call', type(obj).__name__, (expected(obj.items, path, stats),))
     finally:
         path.discard(id(obj))
     raise TypeError(obj)
@@ -94,6 +123,8 @@ def from_ast(node):
         return ('dict', tuple((from_ast(k), from_ast(v)) for k, v in zip(node.keys, node.values)))
     if isinstance(node, ast.Call) and isinstance(node.func, ast.Name) and node.func.id == '__REC__':
         return ('marker', node.args[0].value, node.args[1].value)
+    if isinstance(node, ast.Call) and isinstance(node.func, ast.Name) and node.func.id in ('CNode', 'PNode') and not node.keywords:
+        return ('call', node.func.id, tuple(from_ast(x) for x in node.args))
     return ('unknown', ast.dump(node)[:80])
 
 
@@ -113,7 +144,7 @@ def _edge_options(n, maxdeg, leaf):
 def enumerate_cases(tier):
     for n, leaf in ((1, True), (2, True), (3, False)):
         eo = _edge_options(n, 2, leaf)
-        for kinds in itertools.product(KINDS, repeat=n):
+        for kinds in itertools.product(KINDS + OBJ_KINDS if n <= 2 else KINDS, repeat=n):
             if n == 3 and tier == 'quick' and kinds[0] != min(kinds):
                 # quick: rotate-equivalent kind assignments are thinned out
                 continue
@@ -125,6 +156,11 @@ def fixed_cases():
     yield {'kinds': ['dict'], 'edges': [[0]], 'root': 0, 'root2': 0}                       # test_recursive
     yield {'kinds': ['list', 'list'], 'edges': [[1, 1], [-3]], 'root': 0, 'root2': 1}       # pure sharing
     yield {'kinds': ['list', 'tuple', 'dict'], 'edges': [[1, 2], [2], [0, 1]], 'root': 0, 'root2': 2}
+    # user objects (printer registered for the class / through a predicate) on cycles
+    for k in OBJ_KINDS:
+        yield {'kinds': [k], 'edges': [[0]], 'root': 0, 'root2': 0}
+        yield {'kinds': [k, 'list', k], 'edges': [[1], [2, 2], [0, 1]], 'root': 0, 'root2': 2}
+        yield {'kinds': ['dict', k, 'pobj'], 'edges': [[1, 2], [2, 0], [1, 2, -4]], 'root': 0, 'root2': 1}
     # cycles whose back-reference is a commented dict value (rings of one to three dicts)
     for w in (20, 79):
         yield {'kinds': ['dict'], 'edges': [[0]], 'root': 0, 'root2': 0, 'commented': [[0, 0]], 'width': w}
@@ -138,7 +174,7 @@ def strategy(tier):
     @st.composite
     def graphs(draw):
         n = draw(st.integers(1, 8))
-        kinds = [draw(st.sampled_from(KINDS)) for _ in range(n)]
+        kinds = [draw(st.sampled_from(KINDS + KINDS + OBJ_KINDS)) for _ in range(n)]
         target = st.one_of(st.integers(0, n - 1), st.integers(0, n - 1), st.integers(-9, -1))
         edges = [draw(st.lists(target, max_size=3)) for _ in range(n)]
         case = {'kinds': kinds, 'edges': edges, 'root': 0, 'root2': draw(st.integers(0, n - 1))}
@@ -192,7 +228,7 @@ def oracle(case):
     from .. import faults
     sinks = []
     for o in objs:
-        s = o[0] if isinstance(o, tuple) else o
+        s = o[0] if isinstance(o, tuple) else (o.items if isinstance(o, (CNode, PNode)) else o)
         if not any(s is x for x in sinks):
             sinks.append(s)
     bads = []
